@@ -80,21 +80,13 @@ theorem OutRel.trans (hR : Respects S R) {a b : Env} {o : Out W} (h1 : R a b) (h
 theorem ResRel.trans (hR : Respects S R) {a b : Env} {o : Res W} (h1 : R a b) (h2 : ResRel R b o) : ResRel R a o := by
   cases o <;> simp only [ResRel] at * <;> first | exact hR.trans h1 h2 | trivial
 
-/-- sequencing: `match o with | .ok v st1 => k v st1 | o => o` -/
-theorem OutRel.bind (hR : Respects S R) {g : Env} {o : Out W} (k : Value → State W → Out W)
-    (h1 : OutRel R g o) (h2 : ∀ v st1, OutRel R st1.globals (k v st1)) :
-    OutRel R g (match o with | .ok v st1 => k v st1 | o => o) := by
-  cases o with
-  | ok v st1 => exact OutRel.trans hR h1 (h2 v st1)
-  | err e st1 => exact h1
-  | oof => trivial
-
 /-! ### expressions: they touch the globals only through the calls they make -/
 
 variable (hR : Respects S R) (cfg : Config W) (call : CallFn W) (locals : Option Env)
   (hcall : ∀ f args st, OutRel R st.globals (call f args st))
 include hR hcall
 
+set_option linter.unusedSectionVars false in
 mutual
 theorem evalExpr_rel : ∀ (e : Expr) (st : State W), OutRel R st.globals (evalExpr cfg call locals e st)
   | .number q, st => by simp only [evalExpr]; exact hR.refl _
